@@ -95,6 +95,8 @@ def generate(qualnames, lambda_mode):
             per[q] = dict(error="%s: %s" % (type(e).__name__, e), obligations=[])
         except RecursionError as e:
             per[q] = dict(error="RecursionError: %s" % e, obligations=[])
+        except Exception as e:      # an engine defect on one function must not hide what the other functions show
+            per[q] = dict(error="EngineCrash %s: %s | %s" % (type(e).__name__, str(e)[:200], traceback.format_exc()[-600:]), obligations=[])
     return per, eng
 
 
@@ -171,6 +173,7 @@ def run_property(pid, tier, seed, out=sys.stdout):
     baseline = load_baseline()
     known = [k for k in load_known() if k.get('property') == pid]
     known_open = {k['obligation']: k for k in known if k.get('status') == 'open'}
+    known_open_all = [k['obligation'] for k in load_known() if k.get('status') == 'open']
 
     # ---- bounded stand-in / counterexample finder: run-time contracts on the real functions
     bounded = []
@@ -208,8 +211,24 @@ def run_property(pid, tier, seed, out=sys.stdout):
     vacuity_unchecked = []
     refuted_known = []
 
+    def relevant(q, f):
+        """a native failure counts for this property unless every failed clause is tagged for other properties only
+        or is a listed open finding"""
+        short = q.replace('fast_ticc.', '').split('#')[0]
+        for fl in f['failed']:
+            lab = fl.split(' ')[0]
+            mt = re.search(r'\[(C\d+(?:,C\d+)*)\]', fl)
+            if mt and pid not in mt.group(1).split(','):
+                continue
+            if any(k.startswith(short) and (lab in k or fl in k) for k in known_open_all):
+                continue
+            return True
+        return False
+
     def native_failure_for(q, obname):
-        nr = native_by_fn.get(q) or {}
+        nr = dict(native_by_fn.get(q) or {})
+        if obname not in known_open:        # (a listed finding is confirmed by exactly the failures filtered out here)
+            nr['failures'] = [f for f in nr.get('failures', []) if relevant(q, f)]
         label = obname.split(':', 1)[1] if ':' in obname else obname
         for f in nr.get('failures', []):
             for fl in f['failed']:
@@ -255,7 +274,18 @@ def run_property(pid, tier, seed, out=sys.stdout):
         bad = [(ob, r) for ob, r in items if r['verdict'] != solve.PROVED]
         ob, r = bad[0]
         if ob.kind == 'deadpath':
-            # construct outside the supported subset on a path that is not shown infeasible: undecided, never a verdict
+            # construct outside the supported subset on a path that is not shown infeasible: nothing is decided by the
+            # verifier; the run-time check of the same contract on the real function may still exhibit a failing input
+            nf = native_failure_for(q, name)
+            if nf:
+                vname = q.replace('fast_ticc.', '') + ':' + nf['failed'][0].split(' ')[0]
+                path = os.path.join(VERIF, 'replays', '%s-%s.json' % (pid, sanitize(vname)))
+                json.dump(dict(property=pid, obligation=vname, function=q, verdict='native-contract-failure (function outside the verified subset: %s)' % name,
+                               solver_output=None, native=dict(qualname=q, seed=nf['seed'], index=nf['index'], args=nf['args'],
+                                                               failed=nf['failed'], result=nf.get('result'))),
+                          open(path, 'w'), indent=1, default=str)
+                if not any(v[0] == vname for v in violations):
+                    violations.append((vname, path, True))
             undecided.append(dict(obligation=name, why='unsupported construct on a feasible path', trail=ob.trail))
             continue
         refuted = any(x['verdict'] == solve.REFUTED for _, x in bad)
